@@ -337,6 +337,13 @@ def patterns(names, quick: bool):
     for u in (core_u[:3] if quick else core_u):
         out.append([u, ABSENT16])
         out.append([ABSENT128, u])
+    # the same UUID named more than once (literally, and once per width): still "every UUID of the pattern"
+    for u in (core_u[:2] if quick else core_u):
+        out.append([u, u])
+        out.append([u, other_width(u)])
+    if len(core_u) >= 2:
+        out.append([core_u[0], core_u[1], core_u[0]])
+        out.append([core_u[0], ABSENT16, core_u[0]])
     triples = list(itertools.combinations(core_u, 3))
     if quick:
         # the lexicographically first triple of every distinct (set of records containing a, b, c) signature
